@@ -44,3 +44,40 @@ Lemma cpcca_field_tables :
   cpcca_accessor_table = [("components1", "components1", "norm1", "mul-if-not-normalized"); ("components2", "components2", "norm2", "mul-if-not-normalized");
                           ("scores1", "scores1", "norm1", "div-if-normalized"); ("scores2", "scores2", "norm2", "div-if-normalized")].
 Proof. repeat split; reflexivity. Qed.
+
+(* ---- the way back (Gen/T7chain.v: cross_back_calls, single_back_calls) ----
+   every inverse stage call of the cross-set base class: the stage belongs to the field of the value it is applied to, its
+   method is the one the public method stands for (new data -> the unseen path, fitted scores -> the fit path, ...), and per
+   public method and field the stages are undone in the reverse of the forward order: whitener, PCA, preprocessor *)
+Definition last_char (s : string) : string :=
+  let fix go (s : string) (acc : string) : string := match s with EmptyString => acc | String c r => go r (String c EmptyString) end in go s "".
+Definition field_of_var (v : string) : string :=
+  if existsb (String.eqb v) ["X"; "Xrec"; "Px"; "Rx"] then "1" else if existsb (String.eqb v) ["Y"; "Yrec"; "Py"; "Ry"] then "2" else "?".
+Definition back_method (m : string) : string :=
+  if String.eqb m "transform" || String.eqb m "predict" then "inverse_transform_scores_unseen"
+  else if String.eqb m "inverse_transform" then "inverse_transform_data"
+  else if String.eqb m "components" then "inverse_transform_components"
+  else if String.eqb m "scores" then "inverse_transform_scores" else "?".
+Definition back_row_ok (r : string * string * string * string * string) : bool :=
+  let '(m, t, st, sm, _) := r in
+  String.eqb (last_char st) (field_of_var t) && String.eqb sm (back_method m).
+Definition stage_kind (st : string) : string :=
+  if prefix "whitener" st then "whitener" else if prefix "pca" st then "pca" else if prefix "preprocessor" st then "preprocessor" else "?".
+Definition back_order (m f : string) : list string :=
+  map (fun r => stage_kind (snd (fst (fst r)))) (filter (fun r => let '(m', t, _, _, _) := r in String.eqb m' m && String.eqb (field_of_var t) f) cross_back_calls).
+Fixpoint strlist_eqb (a b : list string) : bool :=
+  match a, b with [], [] => true | x :: a', y :: b' => String.eqb x y && strlist_eqb a' b' | _, _ => false end.
+Definition back_orders_ok : bool :=
+  forallb (fun mf => match back_order (fst mf) (snd mf) with
+                     | [] => String.eqb (fst mf) "predict" && String.eqb (snd mf) "1"      (* predict returns the second field only *)
+                     | l => strlist_eqb l ["whitener"; "pca"; "preprocessor"] end)
+          (list_prod ["transform"; "inverse_transform"; "predict"; "components"; "scores"] ["1"; "2"]).
+
+Lemma cross_back_chain : forallb back_row_ok cross_back_calls = true /\ back_orders_ok = true /\ List.length cross_back_calls = 27.
+Proof. repeat split; vm_compute; reflexivity. Qed.
+
+Lemma single_back_chain : single_back_calls =
+  [("transform", "inverse_transform_scores_unseen"); ("inverse_transform", "inverse_transform_data");
+   ("components", "inverse_transform_components"); ("scores", "inverse_transform_scores")] /\
+  single_model_fit_transform_passes_data_dim_weights_to_fit = true.
+Proof. split; reflexivity. Qed.
